@@ -233,7 +233,7 @@ Theorem client_compresses : forall enc cc r c,
   client_validate cc = true -> is_compressed cc.(c_type) = true -> writer_codec cc.(c_type) = Some c ->
   hget r.(q_ce) = s_empty -> body_ok r = true ->
   let buf := enc c (writer_level c (effective_level cc.(c_level))) (body_bytes r.(q_body)) in
-  client enc cc r = CSent {| w_ce := r.(q_ce) ++ [cc.(c_type)]; w_body := buf; w_cl := blen buf |}.
+  client enc cc r = CSent {| w_ce := r.(q_ce) ++ [cc.(c_type)]; w_body := buf; w_cl := blen buf; w_rewind := Some buf |}.
 Proof. exact client_compresses_l. Qed.
 Print Assumptions client_compresses.
 
@@ -243,6 +243,34 @@ Theorem client_body_error_sends_nothing : forall enc cc r c,
   hget r.(q_ce) = s_empty -> body_ok r = false -> client enc cc r = CError.
 Proof. exact client_body_error_l. Qed.
 Print Assumptions client_body_error_sends_nothing.
+
+(* ---- transport-level replay (net/http rewinds the body with GetBody and sends the request again:
+   reused connection dropped by the server, HTTP/2 retry, redirect) ------------------------------------
+   Whatever the client sends, IF it can be replayed the replay is the very same request; a compressed
+   request can always be replayed; hence the round trip holds under any number of replays. *)
+Theorem replay_sends_the_same_request : forall enc cc r w w',
+  client enc cc r = CSent w -> replay w = Some w' -> w' = w.
+Proof. exact replay_same_request_l. Qed.
+Print Assumptions replay_sends_the_same_request.
+
+Theorem compressed_request_is_replayable : forall enc cc r c w,
+  client_validate cc = true -> is_compressed cc.(c_type) = true -> writer_codec cc.(c_type) = Some c ->
+  hget r.(q_ce) = s_empty -> client enc cc r = CSent w -> replay w = Some w.
+Proof. exact compressed_request_replayable_l. Qed.
+Print Assumptions compressed_request_is_replayable.
+
+Theorem roundtrip_under_replay : forall enc dec cdec, codec_law enc dec ->
+  forall cc sc r c,
+  client_validate cc = true -> is_compressed cc.(c_type) = true -> writer_codec cc.(c_type) = Some c ->
+  r.(q_ce) = [] -> body_ok r = true ->
+  In cc.(c_type) (eff_algs sc) -> ~ In cc.(c_type) (map fst sc.(s_custom)) ->
+  let b := body_bytes r.(q_body) in
+  let wire := enc c (writer_level c (effective_level cc.(c_level))) b in
+  (Z.of_nat (List.length b) <= eff_max sc)%Z ->
+  (Z.of_nat (List.length wire) <= eff_max sc)%Z ->
+  exists w, client enc cc r = CSent w /\ replay w = Some w /\ server dec cdec sc w = Handled [] (-1) (b, E_EOF).
+Proof. exact roundtrip_under_replay_l. Qed.
+Print Assumptions roundtrip_under_replay.
 
 Theorem writer_and_reader_agree : forall t c, writer_codec t = Some c -> slot_of_name t = Some (SCodec c).
 Proof. exact writer_reader_agree. Qed.
